@@ -115,6 +115,9 @@ THEOREMS = [
     "OllamaVerif.Tie.C08.name_len_limits_match",
     "OllamaVerif.Tie.C08.name_accepted_bytes_safe",
     "OllamaVerif.Tie.C08.read_limits_agree",
+    "OllamaVerif.Tie.C08.tree_read_strict_and_neg_refused",
+    "OllamaVerif.Tie.C08.tree_resolve_hash_of_whole_file",
+    "OllamaVerif.Tie.C08.tree_putNeg_noop",
     "OllamaVerif.Tie.C08.tree_link_then_resolve_limited",
 ]
 # theorems about Link variants the tree no longer has (pinned in-place Link before fix 834f6be9a; temp+rename without the
